@@ -1007,7 +1007,14 @@ func init() {
 		var sb strings.Builder
 		sb.WriteString("From Ucanto Require Import Base Varint Cid Car Check_C12.\nOpen Scope N_scope.\nOpen Scope string_scope.\n")
 		fmt.Fprintf(&sb, "Definition arch : bstr := %s.\n", hx(arch))
-		fmt.Fprintf(&sb, "Definition c : case := C 0 (MRaw arch) [%s] %s %s [%s] 0.\n", strings.Join(tbl, "; "), orc, eh, strings.Join(its, "; "))
+		msgrc := 0
+		if len(args) > 2 && args[2] == "msg" {
+			msgrc = c12MsgDecode(arch, false)
+			if rc2 := c12MsgDecode(arch, true); rc2 != msgrc {
+				msgrc = 3
+			}
+		}
+		fmt.Fprintf(&sb, "Definition c : case := C 0 (MRaw arch) [%s] %s %s [%s] %d.\n", strings.Join(tbl, "; "), orc, eh, strings.Join(its, "; "), msgrc)
 		sb.WriteString("Definition M := Eval vm_compute in check_all true [] [c].\nPrint M.\n")
 		sb.WriteString("Definition model_fixed := Eval vm_compute in (let r := car_decode (tbl_lookup arch (c_tbl c)) true (fun _ => match c_orc c with OOk r v _ => Some (r, v) | _ => None end) arch in (match fst r with HdrOk _ => 1 | HdrErr => 0 end, map (fun i => match i with IOk _ d => 1 + N.of_nat (length d) | IErr => 0 end) (snd r))).\nPrint model_fixed.\n")
 		sb.WriteString("Definition model_pinned := Eval vm_compute in (let r := car_decode (tbl_lookup arch (c_tbl c)) false (fun _ => match c_orc c with OOk r v _ => Some (r, v) | _ => None end) arch in (match fst r with HdrOk _ => 1 | HdrErr => 0 end, map (fun i => match i with IOk _ d => 1 + N.of_nat (length d) | IErr => 0 end) (snd r))).\nPrint model_pinned.\n")
@@ -1019,7 +1026,8 @@ func init() {
 			fmt.Fprintln(os.Stderr, err)
 			return 2
 		}
-		out, _ := json.Marshal(map[string]any{"observed": c12ObsString(obs), "bytes": len(arch)})
+		out, _ := json.Marshal(map[string]any{"observed": c12ObsString(obs), "bytes": len(arch),
+			"request_response_decode": []string{"not exercised", "message", "error", "panic or request/response disagree"}[msgrc]})
 		fmt.Println(string(out))
 		return 0
 	}
